@@ -15,6 +15,15 @@ Definition sx_dec {A} (f : A -> sx) (r : option (A * list Z)) : sx :=
 Definition dec_of_res {A} (r : res (A * list Z)) : option (A * list Z) :=
   match r with Ok x => Some x | Err _ => None end.
 
+(* the kind (signed, width, little-endian) the STANDARD gives the named struct-factory field
+   (Spec/PrimSpec.v spec_dwarf_prims / spec_elf_prims; Gen/C16Prims.v = these by theorem) *)
+Definition field_kind (fam : string) (le : bool) (a b : Z) (name : string) : option (bool * Z * bool) :=
+  let tbl := if fam =? "dwarf" then spec_dwarf_prims le a b else spec_elf_prims le a in
+  match find (fun x => String.eqb (fst x) name) tbl with
+  | Some (_, k) => Some k
+  | None => None
+  end.
+
 Definition len_dec (kind : Z) (le : bool) : dec Z :=
   if (kind =? 0)%Z then uleb_decode else uint_decode le (Z.to_nat kind).
 
@@ -35,6 +44,27 @@ Definition dispatch (req : sx) : sx :=
   else if op =? "block" then sx_dec SB (block_decode (len_dec (gI a1) (gbool a2)) (gB a3))
   else if op =? "initlen" then
     sx_dec (fun '(v, is64) => SL [SI v; sx_bool is64]) (initial_length_decode (gbool a1) (gB a2))
+  else if op =? "enc_field" then
+    (* fam le a b name v: the standard's encoding of v in that field *)
+    match field_kind (gS a1) (gbool a2) (gI a3) (gI (nthx 4 l)) (gS (nthx 5 l)) with
+    | Some (_, n, fle) => SB (int_encode fle (Z.to_nat n) (gI (nthx 6 l)))
+    | None => sx_err "unknown-field"
+    end
+  else if op =? "field" then
+    (* fam le a b name data: the model decoder of that kind *)
+    match field_kind (gS a1) (gbool a2) (gI a3) (gI (nthx 4 l)) (gS (nthx 5 l)) with
+    | Some (sg, n, fle) =>
+        let data := gB (nthx 6 l) in
+        SL [sx_dec SI (if (n =? 3)%Z then u24_decode fle data
+                       else if sg then sint_decode_n fle (Z.to_nat n) data else uint_decode fle (Z.to_nat n) data);
+            SL [sx_bool sg; SI n; sx_bool fle]]
+    | None => sx_err "unknown-field"
+    end
+  else if op =? "field_kind" then
+    match field_kind (gS a1) (gbool a2) (gI a3) (gI (nthx 4 l)) (gS (nthx 5 l)) with
+    | Some (sg, n, fle) => SL [sx_bool sg; SI n; sx_bool fle]
+    | None => sx_err "unknown-field"
+    end
   (* specs *)
   else if op =? "uleb_spec" then sx_dec SI (uleb_spec (gB a1))
   else if op =? "sleb_spec" then sx_dec SI (sleb_spec (gB a1))
